@@ -129,6 +129,11 @@ def main():
     for e in errors:
         cls = core.classify(e['msg'])
         kind, name, fmeta, first = asm.locate(e['line'])
+        if cls == 'obligation' and 'postcondition' in e['msg'] and e['spans']:
+            # the failing EXIT decides which unit is responsible (trait-level ensures are shared by all impls)
+            k2, n2, m2, f2 = asm.locate(max(e['spans']))
+            if k2 == 'unit':
+                kind, name, fmeta, first = k2, n2, m2, f2
         if cls == 'tool':
             tool.append((e, kind, name))
         elif cls == 'rlimit':
